@@ -20,6 +20,11 @@ def kv(line):
     return d
 
 
+def rel_e2e(op, impl, spec):
+    """e2e_run lines: the oracle lives in the harness; the model side does not run them"""
+    return None
+
+
 def rel_equal(op, impl, spec):
     return None if impl == spec else "implementation and reference semantics differ"
 
@@ -160,11 +165,66 @@ def nontrivial(prop, op, ans):
     return ans not in ("ok", "bad-op", "")
 
 
+def e2e_monitor(prop):
+    """the harness's own oracle: a FAIL line is a violation of the property named in it"""
+    def mon(ops, impl):
+        return []
+    return mon
+
+
 PROPS = {
+    "C01": {
+        "lean_targets": ["H2V.Props.C01"],
+        "theorems": [
+            ("H2V.Props.C01", "H2V.Props.C01.writer_bytes_exact"),
+            ("H2V.Props.C01", "H2V.Props.C01.reader_chunk_invariance"),
+            ("H2V.Props.C01", "H2V.Props.C01.frames_survive_any_chunking"),
+            ("H2V.Props.C01", "H2V.Props.C01.heads_survive_hpack"),
+            ("H2V.Props.C01", "H2V.Props.C01.heads_survive_fragmentation"),
+        ],
+        "profiles": [
+            {"name": "e2e-plain", "quick": 150, "thorough": 3000, "shards": {"quick": 1, "thorough": 8}},
+            {"name": "e2e-chaos", "quick": 150, "thorough": 3000, "shards": {"quick": 1, "thorough": 8}},
+        ],
+        "relations": {},
+        "impl_only_prefixes": ("e2e_",),
+        "impl_fail_tags": ("C01",),
+        "history_starts": ("e2e_run",),
+        "partial": "codec-level chain proved for all inputs/chunkings; the stream-layer ordering is tied by the two-endpoint runs (oracle in the harness: every byte checked per (stream, offset)) and the connection model",
+        "assumptions": ["http crate conversions (Request/Response <-> pseudo + HeaderMap) are exercised end to end only"],
+    },
+    "C20": {
+        "lean_targets": ["H2V.Props.C20"],
+        "theorems": [
+            ("H2V.Props.C20", "H2V.Props.C20.ping_never_lost"),
+            ("H2V.Props.C20", "H2V.Props.C20.pong_never_lost"),
+            ("H2V.Props.C20", "H2V.Props.C20.ping_lost_if_load_before_register"),
+            ("H2V.Props.C20", "H2V.Props.C20.pong_lost_if_wake_before_cas"),
+            ("H2V.Props.C20", "H2V.Props.C20.lock_order_acyclic"),
+        ],
+        "profiles": [
+            {"name": "threads", "quick": 40, "thorough": 1500, "shards": {"quick": 1, "thorough": 4}},
+        ],
+        "relations": {},
+        "impl_only_prefixes": ("thr_",),
+        "impl_fail_tags": ("C20", "C01", "C14", "C16"),
+        "history_starts": ("thr_run",),
+        "partial": "proved: every interleaving of the lock-free user-ping hand-shake (step order read from the source) and acyclic lock order (acquisition sequences read from the source); the linearizability of mutex-protected handle operations is by construction (one critical section each) and is exercised, not proved, by real multi-threaded runs with a watchdog",
+        "assumptions": ["std::sync::Mutex, AtomicUsize (SeqCst-like atomicity of each step), AtomicWaker semantics", "mutex poisoning by foreign panics and compiler/CPU memory-model effects are outside the model"],
+    },
     "C12": {
         "lean_targets": ["H2V.Props.C12"],
         "theorems": [
             ("H2V.Props.C12", "H2V.Props.C12.head_roundtrip"),
+            ("H2V.Props.C12", "H2V.Props.C12.parse_serialize_data"),
+            ("H2V.Props.C12", "H2V.Props.C12.parse_serialize_ping"),
+            ("H2V.Props.C12", "H2V.Props.C12.parse_serialize_header_block"),
+            ("H2V.Props.C12", "H2V.Props.C12.reader_chunk_invariance"),
+            ("H2V.Props.C12", "H2V.Props.C12.decode_agrees_with_rfc"),
+            ("H2V.Props.C12", "H2V.Props.C12.writer_bytes_exact"),
+            ("H2V.Props.C12", "H2V.Props.C12.tx_within_max_frame_size"),
+            ("H2V.Props.C12", "H2V.Props.C12.rx_oversize_rejected"),
+            ("H2V.Props.C12", "H2V.Props.C12.wire_roundtrip_any_chunking"),
         ],
         "profiles": [
             {"name": "codecread", "quick": 250, "thorough": 3000, "shards": {"quick": 1, "thorough": 6}},
